@@ -45,28 +45,41 @@ class C18(PropBase):
     translators = ["context_tables.py"]
     coq_dirs = ["Base", "C18", "Gen"]
     bins = ["c18"]
-    rule = ("cases = (context type, register name, validity, value): all 9 types x every name and alias the translator found in "
-            "the get/set/memoize/validity tables (exhaustive) x validity {All, Some(empty), Some(full REGISTERS), Some({m}) for every "
-            "name/alias m of the type} x values {0, 1, all-ones, random} (all four under All, rotating otherwise), plus unknown names "
-            "(empty, foreign-architecture names, wrong case, decorated); non-trivial = set_register accepted the name; distinct = distinct case lines")
+    rule = ("cases = (context type, register name, validity, value[, context_flags[, fill word]]): all 9 types x every name and alias the "
+            "translator found in the get/set/memoize/validity tables (exhaustive) x validity {All, Some(empty), Some(full REGISTERS), Some({m}) "
+            "for every name/alias m of the type, the validity-set family} x values {0, 1, all-ones, random, 2^31/2^32/2^63 boundaries}; "
+            "context_flags patterns; fill mode: every 32-bit word of the base context = one of {0, all-ones, each single bit, all-ones-but-one-bit, "
+            "mixed} so that every field a method could consult takes every bit pattern, crossed with odd/even/boundary values written through "
+            "every spelling of the sp / ip registers; unknown names (empty, foreign-architecture names, ASCII-case variants of every own name, "
+            "decorated); non-trivial = set_register accepted the name; distinct = distinct case lines")
     trusted_base = [
         "Coq 8.16.1 kernel; vm_compute evaluates the finite checker over the generated tables (Proofs.tables_diagnosis_empty) and the Examples",
-        "translate/context_tables.py (regex/bracket parser of context.rs + format.rs, aborts on unknown syntax; the default trait bodies "
-        "are compared textually) — validated by the correspondence run against the live methods",
-        "C18/Model.v: hand-written semantics of the tables (match = first matching arm; HashSet modelled as a list; values unbounded)",
+        "translate/context_tables.py (regex/bracket parser of context.rs + format.rs plus a typed expression parser for the dedicated "
+        "accessors' and the dispatch arms' bodies; aborts on unknown syntax; the default trait bodies and the shapes around the dispatch "
+        "matches are compared textually) — validated by the correspondence run against the live methods",
+        "C18/Model.v: hand-written semantics of the tables and of the generated expressions (match = first matching arm; HashSet modelled "
+        "as a list; values unbounded, a widening cast is the identity; CpuRegisters as a list-state iterator; format_register as a hex renderer)",
         "extraction: ExtrOcamlBasic only; ocaml/zconv.ml + ocaml/c18/main.ml glue; harness/src/bin/c18.rs",
     ]
     manifest = {
-        "text": "Theorems (Coq, nine register tables regenerated from context.rs/format.rs on every run; finite in names, all register files, "
-                "values and validity sets): set then get (unchecked and checked) returns the value and changes no other location; aliases "
-                "share a location exactly when they share a canonical name; names memoize_register rejects read as None / are refused, never "
-                "panic; sp/ip names agree with get_stack_pointer/get_instruction_pointer; validity is honoured through aliases; registers()/"
-                "valid_registers() list exactly REGISTERS / its valid subset. Proof by a boolean/diagnostic checker evaluated on the tables "
-                "and lifted by generic lemmas. The translator is validated by running the live methods on every (type, name, validity class, "
-                "value) case against the table-driven model; an independent oracle judges the implementation's answers.",
-        "note": "Trusted: Coq kernel; the translator (correspondence-checked); hand-written table semantics; extraction + glue. "
-                "Validity sets are assumed to hold only names the context knows (a set holding an unknown name makes get_register panic: "
-                "see design/C18.md). No axioms.",
+        "text": "Theorems (Coq, nine register tables regenerated from context.rs/format.rs on every run; finite in names or over ALL strings "
+                "where stated; all register files, values and validity sets): set then get (unchecked and checked) returns the value and "
+                "changes no other location; aliases share a location exactly when they share a canonical name; names memoize_register "
+                "rejects read as None / are refused, never panic; only the exact spellings are known - any other string, in particular an "
+                "ASCII-case variant of a known name, is absent everywhere (default_memoize_register's comparison is translated); the bodies "
+                "of get_stack_pointer / get_instruction_pointer are translated as expressions and proved equal to the unchecked read of the "
+                "sp / ip register name for every register file (whatever cpsr / eflags / context_flags hold) and to follow writes through "
+                "every alias; the MinidumpContext dispatch arms of get_register_always / get_register / valid_registers are translated and "
+                "proved to forward to the variant's own methods unchanged; validity is honoured through aliases; registers()/"
+                "valid_registers() list exactly REGISTERS / its valid subset, also as iterators (CpuRegisters::next); format_register renders "
+                "digits that denote the value. Proof by a diagnostic checker evaluated on the generated tables and lifted by generic lemmas. "
+                "The translator is validated by running the live methods on every (type, name, validity class, value, flag/fill pattern) "
+                "case against the extracted model; an independent oracle judges the implementation's answers (incl. each dedicated accessor "
+                "against the by-name read).",
+        "note": "Trusted: Coq kernel; the translator (correspondence-checked); hand-written semantics of tables/expressions; extraction + glue. "
+                "The trait's default bodies (register_is_valid, get_register, format_register, registers, valid_registers, CpuRegisters::next) "
+                "are modelled by hand and pinned textually by the translator. Validity sets are assumed to hold only names the context knows "
+                "(a set holding an unknown name makes get_register panic: known finding F-C18b, see design/C18.md). No axioms.",
     }
     assumptions = ["theorems: MinidumpContextValidity::Some(S) holds only names memoize_register accepts; the complement is the recorded "
                    "known finding F-C18b (a set holding an unknown name makes the checked accessors reach unreachable!()), exercised on every run",
@@ -127,6 +140,15 @@ class C18(PropBase):
                         cases.append("%s %s S:%s %d" % (variant, u, n, val()))
                         cases.append("%s %s S:%s %d" % (variant, u, ",".join(t["registers"]), val()))
                     dist["case_variants"] = dist.get("case_variants", 0) + 1
+            # decorated spellings of the sp / ip names and of a few others: sigils, separators, padding (`~` = a space)
+            deco = list(dict.fromkeys([t["sp_name"], t["ip_name"], names[0], names[-1]] + list(t["aliases"])[:2]))
+            for n in deco:
+                for u in ("$" + n, "%" + n, "." + n, n + ".", "~" + n, n + "~", n[:1] + "~" + n[1:], "_" + n, n + "_", n + "0", n + n, n[:-1]):
+                    if u and u not in variants_seen:
+                        variants_seen.add(u)
+                        cases.append("%s %s A %d" % (variant, u, val()))
+                        cases.append("%s %s S:%s %d" % (variant, u, n, val()))
+                        dist["decorated_names"] = dist.get("decorated_names", 0) + 1
             # F-C18b class: validity sets holding names the context does not know
             for u in UNKNOWN[1:6]:
                 cases.append("%s %s S:%s %d" % (variant, u, u, val()))
@@ -224,6 +246,12 @@ class C18(PropBase):
                     cases.append("%s %s A %d - %d" % (variant, n, pool[(fi + q) % len(pool)], fw))
                     nf += 1
                 nf += 1
+            # every name on the all-clear and the all-set context, odd high value (any single flag bit set / clear)
+            for fw in (0, M32):
+                pool = fvals(fw)
+                for n in names:
+                    cases.append("%s %s A %d - %d" % (variant, n, pool[8], fw))
+                    nf += 1
             # an unknown name on filled contexts
             for fw in fills[:6]:
                 cases.append("%s %s A %d - %d" % (variant, UNKNOWN[1], 1, fw))
